@@ -170,7 +170,7 @@ def cpp_task(p, tier, seed):
             path = write_replay(PID, {"key": f"{p.id}/cpp/structure", "info": {"kind": "cpp-structure", "program": p.id}, "inputs": {}, "problems": probs[:10]})
             part.violation(f"{p.id}/cpp/structure", f"generated temporaries violate single-assignment/def-before-use: {probs[:3]}", path)
         if p.id.startswith("P7") and ntmp == 0:
-            part.harness_error(f"{p.id}: vacuity: C++ CSE produced no temporaries on the CSE-target program")
+            part.d["inconclusive"].append(f"{p.id}: C++ CSE produced no temporaries named _t<N> on the CSE-target program (vacuity of the structural clause)")
         for nm in res[True]:
             if nm not in res[False]:
                 part.harness_error(f"{p.id}/cpp: output {nm} only with cse on")
@@ -266,7 +266,7 @@ def model_task(p, tier, seed):
 
 def programs_for(tier, seed):
     if tier == "quick":
-        return [CP.P7(), CP.P3(), CP.P8()]
+        return [CP.P7(), CP.P3(), CP.P8(), CP.P15()]
     return CP.all_fixed() + CP.presence_variants(CP.P3())[1:] + [CP.random_program(seed, i) for i in range(10)]
 
 
